@@ -409,12 +409,160 @@ func noAnswerSession(r *rand.Rand, k int) Session {
 	return s
 }
 
+// stallSession: 0..2 ordinary requests, then a request one of whose transport writes (index k)
+// stalls for longer than its operation timeout, 1..2 follow-up requests, then - after the stall
+// has certainly ended - one more. (With the pinned library the caller sits out the stall inside
+// Write; a library that returns earlier lets the follow-up reach the wire during the stall.)
+func stallSession(r *rand.Rand, version string, k int, i int) Session {
+	s := newSession(r, "stall", version, false, true)
+	s.StallMs = 500
+	g := &xg{r: r, mb: r.Intn(3) != 0}
+	mk := func() Req {
+		q := genReq(r, g, shapes[r.Intn(len(shapes))])
+		if q.Arg.N > 0 {
+			q.Arg = lit("<big/>")
+		}
+		return q
+	}
+	for j := 0; j < i%3; j++ {
+		s.Reqs = append(s.Reqs, mk())
+	}
+	q := mk()
+	q.Stall = k
+	q.TimeoutVia = "channel"
+	if takesOptions(q.Shape) && r.Intn(2) == 0 {
+		q.TimeoutVia = "op"
+	}
+	s.Reqs = append(s.Reqs, q)
+	for j, n := 0, 1+r.Intn(2); j < n; j++ {
+		s.Reqs = append(s.Reqs, mk())
+	}
+	last := mk()
+	last.AfterStall = true
+	s.Reqs = append(s.Reqs, last)
+	return s
+}
+
+// applyPool spells out what Pool[:n] means for a call of the given method.
+func applyPool(q *Req, method string, pool []OptSpec, n int, positional string) {
+	filter, ftype := "", "subtree"
+	for _, o := range pool[:n] {
+		switch o.K {
+		case "filter":
+			filter = o.S
+		case "filter-type":
+			ftype = o.S
+		case "defaults":
+			q.Defaults = o.S
+		case "confirmed":
+			q.Confirmed = true
+		case "confirm-timeout":
+			q.Timeout = o.U
+		case "persist":
+			q.Persist = o.S
+		case "persist-id":
+			q.PersistID = o.S
+		}
+	}
+	q.UsePool, q.PoolN = true, n
+	switch method {
+	case "get":
+		q.Defaults, q.Confirmed, q.Timeout, q.Persist, q.PersistID = "", false, 0, "", ""
+		q.Shape = "get"
+		if positional != "" {
+			q.Shape = "get-" + ftype
+			q.Arg = lit(positional)
+		}
+	case "get-config":
+		q.Confirmed, q.Timeout, q.Persist, q.PersistID = false, 0, "", ""
+		q.Shape = "get-config"
+		if filter != "" {
+			q.Shape = "get-config-" + ftype
+			q.Arg = lit(filter)
+		}
+	case "rpc":
+		q.Defaults, q.Confirmed, q.Timeout, q.Persist, q.PersistID = "", false, 0, "", ""
+		q.Shape = "rpc"
+		q.Arg = lit(filter)
+	default: // commit: the shape name only labels the cell; the oracle goes by the fields
+		q.Defaults = ""
+		q.Shape = "commit"
+		switch {
+		case q.PersistID != "":
+			q.Shape = "commit-persist-id"
+		case q.Persist != "":
+			q.Shape = "commit-persist"
+		case q.Timeout > 0:
+			q.Shape = "commit-confirmed-timeout"
+		case q.Confirmed:
+			q.Shape = "commit-confirmed"
+		}
+	}
+}
+
+// aliasSession: all option-taking methods are called with prefixes Pool[:n] of one option array
+// (capacity > length), in an order in which shorter prefixes are used before and after longer ones,
+// mixed with option-less calls.
+func aliasSession(r *rand.Rand, k int) Session {
+	s := newSession(r, "alias", []string{"1.0", "1.1"}[k%2], (k/2)%2 == 0, (k/4)%2 == 0)
+	g := &xg{r: r, mb: r.Intn(3) != 0}
+	frag := func() string {
+		for {
+			if f := g.Fragment(); wellFormedContent(f) {
+				return f
+			}
+		}
+	}
+	kinds := []string{"filter", "filter-type", "defaults", "confirmed", "confirm-timeout", "persist", "persist-id", "filter", "defaults"}
+	np := 3 + r.Intn(6)
+	for j := 0; j < np; j++ {
+		o := OptSpec{K: kinds[r.Intn(len(kinds))]}
+		switch o.K {
+		case "filter":
+			o.S = frag()
+		case "filter-type":
+			o.S = []string{"subtree", "xpath"}[r.Intn(2)]
+		case "defaults":
+			o.S = pickS(r, defaultsPool)
+		case "confirm-timeout":
+			o.U = uint(1 + r.Intn(5000))
+		case "persist", "persist-id":
+			o.S = pickS(r, persistPool)
+		}
+		s.Pool = append(s.Pool, o)
+	}
+	methods := []string{"get", "get", "get-config", "rpc", "commit"}
+	n := 8 + r.Intn(16)
+	for j := 0; j < n; j++ {
+		if r.Intn(6) == 0 {
+			s.Reqs = append(s.Reqs, genReq(r, g, shapes[r.Intn(len(shapes))])) // ordinary call with literal options
+			continue
+		}
+		q := Req{DS: pickS(r, dsPool[:5])}
+		m := methods[r.Intn(len(methods))]
+		pn := r.Intn(np + 1)
+		if j%4 == 0 {
+			m, pn = "get", r.Intn(np) // a Get with a proper prefix, so that a longer slice exists behind it
+		}
+		pos := ""
+		if m == "get" && r.Intn(5) != 0 {
+			pos = frag()
+		}
+		applyPool(&q, m, s.Pool, pn, pos)
+		if m != "get-config" {
+			q.DS = ""
+		}
+		s.Reqs = append(s.Reqs, q)
+	}
+	return s
+}
+
 // Gen is the case list: a pure function of (tier, seed).
 func Gen(tier string, seed int64) []mon.Case {
 	r := rand.New(rand.NewSource(seed*104729 + 3))
-	nGrid, nSweep, nRandom, nBig, nNoAns, nCaps := 4, 2, 150, 8, 24, 1
+	nGrid, nSweep, nRandom, nBig, nNoAns, nCaps, nStall, nAlias := 4, 2, 150, 8, 24, 1, 2, 24
 	if tier == "thorough" {
-		nGrid, nSweep, nRandom, nBig, nNoAns, nCaps = 40, 12, 9000, 128, 400, 6
+		nGrid, nSweep, nRandom, nBig, nNoAns, nCaps, nStall, nAlias = 40, 12, 9000, 128, 400, 6, 12, 400
 	}
 	var ss []Session
 	for round := 0; round < nGrid; round++ {
@@ -450,6 +598,19 @@ func Gen(tier string, seed int64) []mon.Case {
 				ss = append(ss, capsSession(r, wd, v, (wd+vi+round)%2 == 0))
 			}
 		}
+	}
+	for round := 0; round < nStall; round++ {
+		for _, v := range []string{"1.0", "1.1"} {
+			for k := 1; k <= 3; k++ {
+				if v == "1.0" && k == 3 {
+					continue // a 1.0 request is two writes
+				}
+				ss = append(ss, stallSession(r, v, k, round+k))
+			}
+		}
+	}
+	for i := 0; i < nAlias; i++ {
+		ss = append(ss, aliasSession(r, i))
 	}
 	for i := 0; i < nNoAns; i++ {
 		ss = append(ss, noAnswerSession(r, i))
